@@ -34,7 +34,7 @@ import (
 )
 
 type c15Mut struct {
-	Kind string `json:"kind"` // trunc flip const append
+	Kind string `json:"kind"` // trunc flip const append aconst (Pos = index of the argument word to overwrite)
 	Pos  int    `json:"pos"`
 	Val  uint32 `json:"val"`
 	Tail []byte `json:"tail,omitempty"`
@@ -54,7 +54,12 @@ type c15Rec struct {
 type c15Case struct {
 	Recs []c15Rec `json:"recs"`
 	Raw  []byte   `json:"raw,omitempty"` // fuzz target: the stream itself
+	// Sentinel appends a NULL call (xid c15SentinelXid); its reply ends the read
+	// loop at once instead of an idle wait (enumeration phase).
+	Sentinel bool `json:"sentinel,omitempty"`
 }
+
+const c15SentinelXid = 5999
 
 var c15Hostile = []uint32{0, 1, 0x7FFFFFFF, 0x80000000, 0xFFFFFFFF, 1 << 26, 1 << 20, 1<<20 + 1, 8193, 401, 65}
 
@@ -80,8 +85,11 @@ func genC15(t *rapid.T) c15Case {
 				nm = 0
 			}
 			for j := 0; j < nm; j++ {
-				m := c15Mut{Kind: pick(t, "mkind", "trunc", "flip", "const", "const", "append"), Pos: rapid.IntRange(0, 200).Draw(t, "pos")}
+				m := c15Mut{Kind: pick(t, "mkind", "trunc", "flip", "const", "aconst", "aconst", "append"), Pos: rapid.IntRange(0, 200).Draw(t, "pos")}
 				m.Val = rapid.SampledFrom(c15Hostile).Draw(t, "val")
+				if m.Kind == "aconst" {
+					m.Pos = rapid.IntRange(0, 15).Draw(t, "argword")
+				}
 				if m.Kind == "append" {
 					m.Tail = rapid.SliceOfN(rapid.Byte(), 1, 40).Draw(t, "tail")
 				}
@@ -116,9 +124,15 @@ func (c c15Case) build(h c14H) []byte {
 			rec = r.Garbage
 		} else {
 			cred := nfsx.AuthSys(1, "h", 0, 0, nil)
-			rec = nfsx.Call(uint32(5000+i), r.Req.Prog, r.Req.Vers, r.Req.Proc, cred, nfsx.AuthNone(), c14Args(h, r.Req))
+			args := c14Args(h, r.Req)
+			rec = nfsx.Call(uint32(5000+i), r.Req.Prog, r.Req.Vers, r.Req.Proc, cred, nfsx.AuthNone(), args)
+			argOff := len(rec) - len(args)
 			for _, m := range r.Muts {
 				switch m.Kind {
+				case "aconst":
+					if off := argOff + 4*m.Pos; off+4 <= len(rec) {
+						binary.BigEndian.PutUint32(rec[off:], m.Val)
+					}
 				case "trunc":
 					if m.Pos < len(rec) {
 						rec = rec[:m.Pos]
@@ -164,6 +178,9 @@ func (c c15Case) build(h c14H) []byte {
 		if r.RawFrame != 0 {
 			out = binary.BigEndian.AppendUint32(out, r.RawFrame)
 		}
+	}
+	if c.Sentinel {
+		out = append(out, nfsx.Frame(nfsx.Call(c15SentinelXid, nfsx.ProgNFS, 3, 0, nfsx.AuthNone(), nfsx.AuthNone(), nil))...)
 	}
 	return out
 }
@@ -277,6 +294,9 @@ func runC15(tb stat.TB, c c15Case) {
 			continue
 		}
 		got = append(got, rp.Xid)
+		if c.Sentinel && rp.Xid == c15SentinelXid {
+			break
+		}
 	}
 	pc.Close()
 	select {
@@ -352,6 +372,52 @@ func runC15(tb stat.TB, c c15Case) {
 var propC15 = defProp("C15", "TestC15", genC15, runC15)
 
 func TestC15(t *testing.T) { propC15.Test(t) }
+
+// c15Enumerate: every NFSv3 procedure x handle/name variant x every argument
+// word x every hostile constant, one substitution per call, batched into
+// streams that end in a sentinel NULL call.
+func c15Enumerate() []c15Case {
+	h := c14H{root: nfsx.Fh8(1), f: nfsx.Fh8(2), d: nfsx.Fh8(3), l: nfsx.Fh8(4), stale: nfsx.Fh8(99)}
+	vals := []uint32{0x80000000, 0xFFFFFFFF, 0x7FFFFFFF, 0, 1 << 26, 65}
+	var out []c15Case
+	for proc := uint32(1); proc <= 21; proc++ {
+		for va := 0; va < 6; va++ {
+			req := c14Req{Prog: nfsx.ProgNFS, Vers: 3, Proc: proc, Var: va, Shape: "ok"}
+			words := len(c14Args(h, req)) / 4
+			if words > 24 {
+				words = 24
+			}
+			c := c15Case{Sentinel: true}
+			for w := 0; w < words; w++ {
+				for _, val := range vals {
+					c.Recs = append(c.Recs, c15Rec{Req: req, Muts: []c15Mut{{Kind: "aconst", Pos: w, Val: val}}})
+					if len(c.Recs) == 24 {
+						out = append(out, c)
+						c = c15Case{Sentinel: true}
+					}
+				}
+			}
+			if len(c.Recs) > 0 {
+				out = append(out, c)
+			}
+		}
+	}
+	return out
+}
+
+func TestC15Enum(t *testing.T) {
+	stat.SetProperty("C15")
+	stat.SetDisjoint(true)
+	all := c15Enumerate()
+	for i, c := range all {
+		if i%nshards != shard {
+			continue
+		}
+		stat.Begin(c)
+		runC15(t, c)
+	}
+	stat.Extra("enumerated_streams", len(all))
+}
 
 func FuzzC15(f *testing.F) {
 	stat.SetProperty("C15")
